@@ -12,11 +12,11 @@ import (
 )
 
 type Case struct {
-	Choices []int `json:"choices,omitempty"` // schedule (simulated exploration)
-	Part   string `json:"part"` // script | special | sim
-	Script string `json:"script,omitempty"`
-	What   string `json:"what,omitempty"`
-	RunDir string `json:"run_dir,omitempty"` // "" | existing | missing
+	Choices []int  `json:"choices,omitempty"` // schedule (simulated exploration)
+	Part    string `json:"part"`              // script | special | sim
+	Script  string `json:"script,omitempty"`
+	What    string `json:"what,omitempty"`
+	RunDir  string `json:"run_dir,omitempty"` // "" | existing | missing
 }
 
 func scripts(maxLen int) []string {
@@ -155,6 +155,21 @@ func judgeSpecial(c *mcx.Ctx, cs Case) (obs, sig, class string) {
 			return "no error", "C14|unstartable-command-not-reported|not-executable", "error-expected"
 		}
 		return "error as expected", "", "error-expected"
+	case "invalid-executable-format", "missing-interpreter":
+		// found and executable, but the kernel cannot start it
+		p := c.Work + "/unstartable"
+		content := []byte("\x00\x01\x02 not an executable format")
+		if cs.What == "missing-interpreter" {
+			content = []byte("#!/nonexistent/verif-no-such-interpreter\necho hello\n")
+		}
+		os.Remove(p)
+		os.WriteFile(p, content, 0o755)
+		_, err := intoto.RunCommand([]string{p}, "")
+		c.Impl(1)
+		if err == nil {
+			return "no error", "C14|unstartable-command-not-reported|" + cs.What, "error-expected"
+		}
+		return "error as expected", "", "error-expected"
 	case "relative-command-in-run-directory", "bare-command-name-from-path":
 		// a command given relative to the working directory of the step, which is not the verifier's own
 		dir := gen.FreshDir(c.Work, "stepdir")
@@ -237,7 +252,7 @@ func enumerate(thorough bool, emit func(Case)) {
 	for _, s := range vol {
 		emit(Case{Part: "script", Script: s})
 	}
-	for _, w := range []string{"empty-command", "nil-command", "missing-executable", "not-executable", "byproducts-of-run", "relative-command-in-run-directory", "bare-command-name-from-path"} {
+	for _, w := range []string{"empty-command", "nil-command", "missing-executable", "not-executable", "invalid-executable-format", "missing-interpreter", "byproducts-of-run", "relative-command-in-run-directory", "bare-command-name-from-path"} {
 		emit(Case{Part: "special", What: w})
 	}
 }
@@ -291,14 +306,15 @@ func runSim(c *mcx.Ctx, n *int64) {
 	if c.Thorough() {
 		maxLen = 5
 	}
+	skip := false
 	for _, s := range scripts(maxLen) {
 		for _, x := range []string{"x0", "x3"} {
 			full := x
 			if s != "" {
 				full = s + "," + x
 			}
-			*n++
-			if !c.Mine(*n) {
+			*n++ // counted even when skipped: the sharding of the cases that follow must be the same in every worker
+			if !c.Mine(*n) || skip {
 				continue
 			}
 			sig, obs, choices, ex, inconclusive, pts := simExplore(full, 300000)
@@ -315,7 +331,8 @@ func runSim(c *mcx.Ctx, n *int64) {
 			if inconclusive != "" {
 				c.Cap("simulated exploration inconclusive (" + inconclusive + "); the real-process exploration alone decides")
 				c.Outcome("sim|inconclusive")
-				return
+				skip = true
+				continue
 			}
 			c.Outcome("sim|" + map[bool]string{true: "all-schedules-complete-capture", false: "violation"}[sig == ""] + "|" + scriptClass(full))
 			if sig != "" {
@@ -347,7 +364,7 @@ func replay(c *mcx.Ctx, raw json.RawMessage) (string, string) {
 func init() {
 	mcx.Register(&mcx.Driver{
 		ID: "C14", Run: run, Replay: replay, KernelScheduled: true,
-		Rule: "(1) simulated child under the cooperative scheduler: for every write script of <= 4 (thorough 5) operations x exit 0 / 3, ALL interleavings (stateless DFS with state-hash pruning: per-thread position and observation hash, pipe contents and flags, channel queues) of the parent (the real RunCommand), the child thread, the goroutines RunCommand starts and os/exec-style copier threads at every pipe read / write / close, Start, Wait and channel operation, with pipes of 2 units; deadlock = no enabled thread; capture and status compared exactly in every schedule; (2) every write script of <= 3 (thorough 4) operations from {write 1/2/3 units to stdout, write 1/2/3 units to stderr, close stdout, close stderr} (1 unit = half the kernel pipe capacity, verified with F_GETPIPE_SZ; 3 units exceed the pipe) followed by exit 0 / 3 / 255, executed by a real child process through RunCommand; plus exits by signal, scripts with pauses, existing / missing working directory, volume scripts up to 1 MiB per stream (thorough: 4 MiB), empty / nil / missing / non-executable commands and the by-products of InTotoRun. " +
+		Rule: "(1) simulated child under the cooperative scheduler: for every write script of <= 4 (thorough 5) operations x exit 0 / 3, ALL interleavings (stateless DFS with state-hash pruning: per-thread position and observation hash, pipe contents and flags, channel queues) of the parent (the real RunCommand), the child thread, the goroutines RunCommand starts and os/exec-style copier threads at every pipe read / write / close, Start, Wait and channel operation, with pipes of 2 units; deadlock = no enabled thread; capture and status compared exactly in every schedule; (2) every write script of <= 3 (thorough 4) operations from {write 1/2/3 units to stdout, write 1/2/3 units to stderr, close stdout, close stderr} (1 unit = half the kernel pipe capacity, verified with F_GETPIPE_SZ; 3 units exceed the pipe) followed by exit 0 / 3 / 255, executed by a real child process through RunCommand; plus exits by signal, scripts with pauses, existing / missing working directory, volume scripts up to 1 MiB per stream (thorough: 4 MiB), empty / nil / missing / non-executable commands, executables of an invalid format or with a missing interpreter and the by-products of InTotoRun. " +
 			"Each write operation uses its own fill byte, so the capture is compared exactly. A hang is established structurally, never by a timeout: the child sits in write(2) on fd 1/2 (from /proc/<pid>/syscall) and the fill level of that pipe, read with FIONREAD on the parent's own end, equals the capacity and does not move over eight polls while RunCommand has not returned; a run without result after 60 s is inconclusive (exit 0, exhaustive:false). non-trivial = the script writes or exits non-zero. states = scripts, transitions = script operations.",
 		Assumptions: []string{"linux/amd64 (/proc/<pid>/syscall, write = syscall 1)", "the schedule between parent and child is whatever the kernel gives; deadlock on a full pipe does not depend on it"},
 	})
